@@ -72,6 +72,15 @@ class Log(list):
     pass
 
 
+def stub_index(z):
+    """index of refraction of the stub ice: depends on depth, so every vertex has its own Cherenkov angle"""
+    return 1.5 if z > -250.0 else 1.25
+
+
+def stub_vertex(vid):
+    return (10.0 * vid, 0.0, -200.0 if vid % 2 else -300.0)
+
+
 # =============================================================================================
 # recording stubs
 def make_stubs(ctx, log):
@@ -82,7 +91,7 @@ def make_stubs(ctx, log):
 
     class StubIce:
         def index(self, z):
-            return 1.5
+            return stub_index(float(z))
     ice = StubIce()
 
     class StubPath:
@@ -91,7 +100,7 @@ def make_stubs(ctx, log):
             self.tof = ent["tof"]
             self.emitted_direction = np.array(ent["e"])
             self.received_direction = -np.array(ent["e"])
-            self.path_length = 100.0 + ent["id"]
+            self.path_length = 100.25 + ent["id"]          # not an integer: a rounded distance is noticed
             self.outs = []
 
         def propagate(self, signal=None, polarization=None, attenuation_interpolation=None):
@@ -119,8 +128,9 @@ def make_stubs(ctx, log):
 
     class StubSignal(Signal):
         def __init__(self, times, particle, viewing_angle, viewing_distance=1, ice_model=None, t0=0):
-            pathid = int(round(viewing_distance - 100.0))
-            log.append(("signal", particle, pathid, float(viewing_angle), ice_model is ice, times))
+            pathid = int(np.floor(viewing_distance - 100.0))
+            log.append(("signal", particle, pathid, float(viewing_angle), ice_model is ice, times,
+                        float(viewing_distance)))
             if (particle._pid, pathid) in ctx["refuse"]:
                 raise ValueError("stub signal model refuses particle %d path %d" % (particle._pid, pathid))
             super().__init__(times, np.ones(len(times)), Signal.Type.field)
@@ -163,8 +173,8 @@ def make_stubs(ctx, log):
 
 def trig_fn(spec):
     if spec[0] == "G":
-        return lambda ants: len(ants[spec[1]].calls) >= spec[2]
-    return lambda ants: any(isinstance(c[0], list) for c in ants[spec[1]].calls)
+        return lambda ants: len(list(ants)[spec[1]].calls) >= spec[2]
+    return lambda ants: any(isinstance(c[0], list) for c in list(ants)[spec[1]].calls)
 
 
 def trig_s(spec):
@@ -179,7 +189,7 @@ def build_event(evd):
     for pe in evd["particles"]:
         if pe["dup_of"] is not None:
             continue
-        p = pyrex.Particle("nu_e", vertex=(10.0 * pe["vid"], 0.0, -200.0), direction=pe["dir"], energy=1e9,
+        p = pyrex.Particle("nu_e", vertex=stub_vertex(pe["vid"]), direction=pe["dir"], energy=1e9,
                            interaction_type="cc", weight=pe["forced"])
         p.survival_weight = pe["sw"]
         p.interaction_weight = pe["iw"]
@@ -225,6 +235,21 @@ def run_stub(case):
     gen = ListGenerator([filler] + [b[0] for b in built], loop=False)
     gen.create_event()                      # count = 1 before the kernel exists
     ants = [StubAntenna(i) for i in range(case["nant"])]
+
+    class OnlyIter:
+        """an antenna collection that promises what the kernel documents: len() and iteration, no indexing"""
+        def __init__(self, items):
+            self._items = list(items)
+
+        def __len__(self):
+            return len(self._items)
+
+        def __iter__(self):
+            return iter(self._items)
+    form = case.get("ants_form", "list")
+    ants_arg = tuple(ants) if form == "tuple" else OnlyIter(ants) if form == "iter" else ants
+    wmin_arg = list(case["wmin"]) if case.get("wmin_form") == "list" and isinstance(case["wmin"], tuple) \
+        else case["wmin"]
     writer = Writer() if case["writer"] else None
     t = case["trig"]
     if t[0] == "N":
@@ -234,11 +259,10 @@ def run_stub(case):
     else:
         triggers = {k: trig_fn(s) for k, s in t[1]}
     times = np.array(case["times"])
-    kern = EventKernel(gen, ants, ice_model=ice, ray_tracer=StubTracer, signal_model=StubSignal,
+    kern = EventKernel(gen, ants_arg, ice_model=ice, ray_tracer=StubTracer, signal_model=StubSignal,
                        signal_times=times, event_writer=writer, triggers=triggers,
-                       offcone_max=case["offcone"], weight_min=case["wmin"],
+                       offcone_max=case["offcone"], weight_min=wmin_arg,
                        attenuation_interpolation=case["interp"])
-    theta_c = float(np.arccos(1 / ice.index(-200.0)))
     offmax = float(np.radians(180 if case["offcone"] is None else case["offcone"]))
     wm = case["wmin"]
     if wm is None:
@@ -277,6 +301,7 @@ def run_stub(case):
         for pid in order:
             p = ps[pid]
             vid = vid_of(evd, pid)
+            theta_c = float(np.arccos(1 / stub_index(p.vertex[2])))
             s = "%d %s %s %s %s" % (pid, opt(p.survival_weight), opt(p.interaction_weight), opt(p._forced_weight),
                                     frs(theta_c))
             for i in range(case["nant"]):
@@ -343,8 +368,9 @@ def run_stub(case):
             if ent[0] == "tracer" and not ent[2]:
                 bad.append("tracer-ice")
             if ent[0] == "signal":
-                _, p, pathid, va, ice_ok, tms = ent
-                if not ice_ok or tms is not kern.signal_times or va != psi_of[(p._pid, pathid)]:
+                _, p, pathid, va, ice_ok, tms, vd = ent
+                if not ice_ok or tms is not kern.signal_times or va != psi_of[(p._pid, pathid)] \
+                        or vd != allpaths[pathid].path_length:
                     bad.append("signal-args")
             if ent[0] == "propagate":
                 _, pid, pathid, sig, pol, interp = ent
@@ -373,23 +399,23 @@ def run_stub(case):
             wtxt = "written calls=%d" % len(writer.calls)
         else:
             w = writer.calls[-1]
-            cand = {}
+            cand = {i: {} for i in range(case["nant"])}
             for pid in set(order):
                 vid = vid_of(evd, pid)
                 for i in range(case["nant"]):
                     for path in paths[(vid, i)] or []:
-                        cand[(pid, path.id)] = nu_pol(np, ps[pid].direction, path.emitted_direction)
+                        cand[i][(pid, path.id)] = nu_pol(np, ps[pid].direction, path.emitted_direction)
 
-            def pol_id(v):
-                hits = [kk for kk, x in cand.items() if np.array_equal(x, v)]
+            def pol_id(v, i):
+                hits = [kk for kk, x in cand[i].items() if np.array_equal(x, v)]
                 return "%d:%d" % hits[0] if len(hits) == 1 else "?"
             wtxt = "written 1 ev=%d thrown=%d trig=%s rp=%s pol=%s" % (
                 w["event"]._eid, w["events_thrown"], trig_txt(w["triggered"]),
                 ";".join(",".join(str(p.id) for p in l) for l in w["ray_paths"]),
-                ";".join(",".join(pol_id(v) for v in l) for l in w["polarizations"]))
+                ";".join(",".join(pol_id(v, i) for v in l) for i, l in enumerate(w["polarizations"])))
             for i, seg in enumerate(segs):
                 segs[i] = seg + " r %d" % len(w["ray_paths"][i]) + "".join(" %d" % p.id for p in w["ray_paths"][i]) \
-                    + " q %d" % len(w["polarizations"][i]) + "".join(" " + pol_id(v) for v in w["polarizations"][i])
+                    + " q %d" % len(w["polarizations"][i]) + "".join(" " + pol_id(v, i) for v in w["polarizations"][i])
             # the writer's lists are the kernel's own, not the tracers' solution lists, and distinct per antenna
             raw = w["raw_paths"]
             if len({id(l) for l in raw}) != len(raw) or any(l is s for l in raw for s in paths.values()):
@@ -429,7 +455,10 @@ def gen_stub_event(rng, nant, theta_c):
     particles = []
     for k in range(npart):
         b = rng.choice([(0.0, 0.0, 1.0), (1.0, 0.0, 0.0), (0.0, 0.0, -1.0)])
-        d = tuple(x + 0.013 * (k + 1) * y for x, y in zip(b, (0.3, 0.5, 0.2)))     # all directions distinct
+        d = tuple(x + 0.013 * (k + 1) * y for x, y in zip(b, (0.3 + 0.07 * k, 0.5 - 0.03 * k, 0.2)))
+        # (all directions distinct, also after projection onto any plane)
+        if k == 0 and rng.random() < 0.4:
+            d = b          # exactly axis-aligned: a path may leave exactly along it (psi = 0, nu_pol = 0 vector)
         particles.append({"id": k + 1, "vid": rng.randint(1, nvid), "sw": rng.choice(wpool), "iw": rng.choice(wpool),
                           "forced": rng.choice([None, None, None, None, 0.0, 1 / 8, 1 / 4, 1.0]), "dir": d, "base": b,
                           "parent": None if k == 0 or rng.random() < 0.6 else rng.randint(1, k), "dup_of": None})
@@ -439,8 +468,11 @@ def gen_stub_event(rng, nant, theta_c):
     table = {}
     nid = 0
     first_dir = {}
+    aligned = {}
     for pe in particles:
         first_dir.setdefault(pe["vid"], pe["base"])
+        if pe["dir"] == pe["base"]:
+            aligned[pe["vid"]] = pe["base"]
     for vid in range(1, nvid + 1):
         d0 = first_dir.get(vid, (0.0, 0.0, 1.0))
         for i in range(nant):
@@ -458,6 +490,8 @@ def gen_stub_event(rng, nant, theta_c):
                 else:
                     e = (np.sin(psi) * np.cos(phi), np.sin(psi) * np.sin(phi), d0[2] * np.cos(psi))
                 ents.append({"id": nid, "tof": rng.randint(1, 400) / 8.0, "e": tuple(float(x) for x in e)})
+            if ents and aligned.get(vid) is not None and rng.random() < 0.5:
+                ents[rng.randrange(len(ents))]["e"] = aligned[vid]       # emitted exactly along a particle direction
             table[(vid, i)] = ents
     # the signal model refuses some (particle, path) pairs - some, not all, of an antenna's solutions
     refuse = sorted({(pe["id"], e["id"]) for pe in particles if pe["dup_of"] is None for i in range(nant)
@@ -491,7 +525,9 @@ def gen_stub_case(rng):
             "wmin": rng.choice([None, 0.0, 0.1, 0.25, 0.5, (0.5, 0.5), (0.25, 0.75), (0.0, 0.5), (0.25, 0.0),
                                 (1 / 16, 1 / 16)]),
             "offcone": rng.choice([None, 5, 20]), "interp": rng.choice([None, 0.1]),
-            "trig": trig, "writer": rng.random() < 0.7}
+            "trig": trig, "writer": rng.random() < 0.7,
+            "wmin_form": rng.choice(["tuple", "tuple", "list"]),          # weight_min pair as tuple or list
+            "ants_form": rng.choice(["list", "list", "tuple", "iter"])}   # the antenna collection
 
 
 def event_def(case, k):
@@ -1030,13 +1066,16 @@ def stub_oracle(case):
                 return not ((p.survival_weight is not None and p.survival_weight < wm[0])
                             or (p.interaction_weight is not None and p.interaction_weight < wm[1]))
             return not (p.weight < (0 if wm is None else wm))
+        exp_all = []
         for i in range(case["nant"]):
             exp, ids, pq = [], [], []
+            exp_all.append(exp)
             for pid in order:
                 if not passes(ps[pid]):
                     continue
                 for e in evd["table"][(vid_of(evd, pid), i)] or []:
                     psi = float(np.arccos(np.vdot(ps[pid].direction, np.array(e["e"]))))
+                    theta_c = float(np.arccos(1 / stub_index(ps[pid].vertex[2])))
                     empty = abs(psi - theta_c) > offmax or (pid, e["id"]) in refuse
                     grid = grid_s([t + e["tof"] for t in case["times"]])
                     exp.append(("E " + grid) if empty else ("P %d %d %s" % (pid, e["id"], grid)))
@@ -1048,6 +1087,24 @@ def stub_oracle(case):
                     + "".join(" " + x for x in pq)
             if segs[3 + i] != want:
                 return "event %d antenna %d: expected `%s` got `%s`" % (k, i, want[:200], segs[3 + i][:200])
+        # the trigger result is the supplied function(s) evaluated on the antennas after reception
+        def ev_trig(spec):
+            if spec[0] == "G":
+                return len(exp_all[spec[1]]) >= spec[2]
+            return any(x.startswith("P ") for x in exp_all[spec[1]])
+        t = case["trig"]
+        if t[0] == "N":
+            want_ret, want_tr = "ret event", "trig=none"
+        elif t[0] == "F":
+            want_ret, want_tr = "ret event,%d" % ev_trig(t[1]), "trig=b%d" % ev_trig(t[1])
+        else:
+            vals = {kk: ev_trig(sp) for kk, sp in t[1]}
+            want_ret = "ret event,%d" % vals["global"] if "global" in vals else "ret keyerror"
+            want_tr = "trig=d" + "".join(" %s=%d" % (kk, vals[kk]) for kk, _ in t[1])
+        if segs[1] != want_ret:
+            return "event %d: returned `%s`, the trigger function(s) on the antennas give `%s`" % (k, segs[1], want_ret)
+        if case["writer"] and (want_tr + " rp=") not in segs[2]:
+            return "event %d: writer got `%s`, expected `%s`" % (k, segs[2][:120], want_tr)
         if case["writer"] and "thrown=%d " % (1 + case["events"][k]["extra_throws"]) not in segs[2]:
             return "event %d: events_thrown is not the advance of the generator counter: %s" % (k, segs[2][:80])
     if len(results) != len(case["events"]):
